@@ -268,6 +268,8 @@ def check_obb(fx, R):
             ok = b['$RED'] in ('.all', '.prod') and b['$CMP'] == '<=' and b['$TR'] in ('.transpose', '.inverse')
             R.check(ok, 'B2', '%s::isInside' % cname, 'containment is `%s` of `|%s(R)(p-c)| %s h`; needs the box-frame coordinates R^T(p-c), `<=`, all coordinates' % (b['$RED'], b['$TR'], b['$CMP']),
                     '|R^T(p-c)| <= h on all coordinates', fx.rel(f['loc']), 'E-ORD')
+        elif len(r) == 1 and m(('$RED', ('$CMP', ({'.abs', '.cwiseAbs'}, ('*', 'this.rotation_', ('-', 'point', C))), H)), r[0], {}):
+            R.violated('B2', '%s::isInside' % cname, 'the point is expressed with R instead of R^T: containment is tested in the wrong frame (equal only for symmetric rotations)', fx.rel(f['loc']), 'E-ORD')
         else:
             R.undecided('B2', '%s::isInside' % cname, 'containment idiom not recognised: %s' % (r,))
         for g, want in (('getCenterPosition', C), ('getHalfWidthExtents', H)):
